@@ -12,7 +12,8 @@ from tally.merchant_engine import parse_merchants
 
 O = Oracle()
 TOKENS = ['STARBUCKS', 'STORE', 'Cafe', "JOE'S", 'A.B', 'C*D', 'X+Y', '(NEW)', 'WHAT?', '[Z]', 'A|B', 'P$', '^Q', 'R{2}', 'BACK\\SLASH', 'QUO"TE', '00012345',
-          '#1234', 'WA', '98101', 'SQ', '*MARKET', 'TST*', 'APLPAY', 'Spaßbad', 'É', 'İstanbul', 'ﬁsh', '12', 'A,B', 'x=y', 'tab\tsep']
+          '#1234', 'WA', '98101', 'SQ', '*MARKET', 'TST*', 'APLPAY', 'Spaßbad', 'É', 'İstanbul', 'ﬁsh', '12', 'A,B', 'x=y', 'tab\tsep',
+          '#12A', '#7-X', 'CRISP', 'SHOPP*MART', 'GOOGLE', '#9']
 PREFIXES = ['', 'SQ *', 'TST* ', 'APLPAY ', 'PP*', 'GOOGLE *', 'SP ']
 
 
